@@ -236,9 +236,12 @@ Load(w) == /\ phase = "created" /\ ViewOK(cfg, w)
 Verify == /\ phase = "loaded" /\ cur.state = "pristine" /\ cfg.flaw = "none"
           /\ phase' = "verified" /\ verdict' = "intact" /\ UNCHANGED <<cfg, lk, cur, obs>>
 \* an artifact written by a dishonest or broken creator - internally consistent hashes, but (Flaws) a public share
-\* off the validator's polynomial, signatures by the wrong key, an aggregate signature lacking a share - is refused
-Flaws == {"extrashare", "firstshare", "aggsig", "opsig", "enrsig", "creatorsig"}
-FlawApplies(f, v, art) == CASE f \in {"extrashare", "firstshare", "aggsig"} -> art = "lock"
+\* off the validator's polynomial, the public shares spread over TWO polynomials with the same constant term that agree
+\* in t-2 of the share indices ("twopoly": every share lies on a polynomial of the right degree through the validator's
+\* key together with SOME others, but not all of them on one - some threshold subsets do not recombine to the key),
+\* signatures by the wrong key, an aggregate signature lacking a share - is refused
+Flaws == {"extrashare", "firstshare", "twopoly", "aggsig", "opsig", "enrsig", "creatorsig"}
+FlawApplies(f, v, art) == CASE f \in {"extrashare", "firstshare", "twopoly", "aggsig"} -> art = "lock"
                             [] f \in {"opsig", "enrsig"} -> v >= 3
                             [] f = "creatorsig" -> v >= 4
                             [] OTHER -> FALSE
